@@ -484,7 +484,19 @@ impl<D: DependencyProvider, RT: AsyncRuntime> Solver<D, RT> {
             // Enter the solver loop, return immediately if no new assignments have been
             // made.
             tracing::trace!("Level {}: Resolving dependencies", level);
-            level = self.resolve_dependencies(level)?;
+            level = match self.resolve_dependencies(level, starting_level) {
+                Ok(level) => level,
+                Err(UnsolvableOrCancelled::Unsolvable(_)) if starting_level > 0 => {
+                    // The soft requirement cannot be installed on top of the decisions
+                    // that were made before this run started.
+                    return self.run_sat_process_unsolvable(
+                        root_solvable,
+                        starting_level,
+                        ClauseId::install_root(),
+                    );
+                }
+                Err(err) => return Err(err),
+            };
             tracing::trace!("Level {}: Done resolving dependencies", level);
 
             // We have a partial solution. E.g. there is a solution that satisfies all the
@@ -618,7 +630,15 @@ impl<D: DependencyProvider, RT: AsyncRuntime> Solver<D, RT> {
     /// for which no concrete package has been picked yet. Then we pick the
     /// highest possible version for that package, or the favored version if
     /// it was provided by the user, and set its value to true.
-    fn resolve_dependencies(&mut self, mut level: u32) -> Result<u32, UnsolvableOrCancelled> {
+    ///
+    /// `base_level` is the level of the last decision that was made before the current
+    /// run of [`Solver::run_sat`] started (0 for the root requirements). Decisions at or
+    /// below that level are never undone while resolving.
+    fn resolve_dependencies(
+        &mut self,
+        mut level: u32,
+        base_level: u32,
+    ) -> Result<u32, UnsolvableOrCancelled> {
         loop {
             // Make a decision. If no decision could be made it means the problem is
             // satisfyable.
@@ -634,7 +654,7 @@ impl<D: DependencyProvider, RT: AsyncRuntime> Solver<D, RT> {
             );
 
             // Propagate the decision
-            match self.set_propagate_learn(level, candidate, required_by, clause_id) {
+            match self.set_propagate_learn(level, base_level, candidate, required_by, clause_id) {
                 Ok(new_level) => {
                     level = new_level;
                     tracing::debug!("╘══ Propagation completed");
@@ -887,6 +907,7 @@ impl<D: DependencyProvider, RT: AsyncRuntime> Solver<D, RT> {
     fn set_propagate_learn(
         &mut self,
         mut level: u32,
+        base_level: u32,
         solvable: VariableId,
         _required_by: VariableId,
         clause_id: ClauseId,
@@ -898,10 +919,14 @@ impl<D: DependencyProvider, RT: AsyncRuntime> Solver<D, RT> {
             .try_add_decision(Decision::new(solvable, true, clause_id), level)
             .expect("bug: solvable was already decided!");
 
-        self.propagate_and_learn(level)
+        self.propagate_and_learn(level, base_level)
     }
 
-    fn propagate_and_learn(&mut self, mut level: u32) -> Result<u32, UnsolvableOrCancelled> {
+    fn propagate_and_learn(
+        &mut self,
+        mut level: u32,
+        base_level: u32,
+    ) -> Result<u32, UnsolvableOrCancelled> {
         loop {
             match self.propagate(level) {
                 Ok(()) => {
@@ -917,6 +942,7 @@ impl<D: DependencyProvider, RT: AsyncRuntime> Solver<D, RT> {
                 )) => {
                     level = self.learn_from_conflict(
                         level,
+                        base_level,
                         conflicting_solvable,
                         attempted_value,
                         conflicting_clause,
@@ -929,6 +955,7 @@ impl<D: DependencyProvider, RT: AsyncRuntime> Solver<D, RT> {
     fn learn_from_conflict(
         &mut self,
         mut level: u32,
+        base_level: u32,
         conflicting_solvable: VariableId,
         attempted_value: bool,
         conflicting_clause: ClauseId,
@@ -957,6 +984,13 @@ impl<D: DependencyProvider, RT: AsyncRuntime> Solver<D, RT> {
             );
         }
 
+        if level == base_level + 1 && base_level > 0 {
+            // The conflict only involves the solvable this run was started for (a soft
+            // requirement) and decisions that were made before the run started. The
+            // caller undoes this run; the conflict itself is not reported to the user.
+            return Err(Conflict::default());
+        }
+
         if level == 1 {
             for decision in self.state.decision_tracker.stack() {
                 let clause_id = decision.derived_from;
@@ -983,7 +1017,7 @@ impl<D: DependencyProvider, RT: AsyncRuntime> Solver<D, RT> {
         }
 
         let (new_level, learned_clause_id, literal) =
-            self.analyze(level, conflicting_solvable, conflicting_clause);
+            self.analyze(level, base_level, conflicting_solvable, conflicting_clause);
         let old_level = level;
         level = new_level;
 
@@ -1304,6 +1338,7 @@ impl<D: DependencyProvider, RT: AsyncRuntime> Solver<D, RT> {
     fn analyze(
         &mut self,
         mut current_level: u32,
+        base_level: u32,
         mut conflicting_solvable: VariableId,
         mut clause_id: ClauseId,
     ) -> (u32, ClauseId, Literal) {
@@ -1425,8 +1460,11 @@ impl<D: DependencyProvider, RT: AsyncRuntime> Solver<D, RT> {
             );
         }
 
-        // Should revert at most to the root level
-        let target_level = back_track_to.max(1);
+        // Should revert at most to the root level, or when solving for a soft requirement
+        // at most to the level at which that requirement was selected: the decisions made
+        // before (the solution to the root requirements and the previously accepted soft
+        // requirements) must be kept.
+        let target_level = back_track_to.max(base_level + 1);
         self.state.decision_tracker.undo_until(target_level);
 
         self.decay_activity_scores();
